@@ -40,7 +40,7 @@ type memTracker struct {
 	fieldIdx map[string]map[string]int
 	memIdx   map[famKey]map[int]bool
 	seq      int
-	events  int // writes that shrank an end offset
+	events   int // writes that shrank an end offset
 }
 
 type contribMeta struct {
@@ -68,7 +68,9 @@ func newMemTracker(shards int) *memTracker {
 		sinceOpen: map[string]map[string]bool{}, fieldIdx: map[string]map[string]int{}, memIdx: map[famKey]map[int]bool{}}
 }
 
-func contribID(batch, point int, field string) string { return fmt.Sprintf("%d.%d.%s", batch, point, field) }
+func contribID(batch, point int, field string) string {
+	return fmt.Sprintf("%d.%d.%s", batch, point, field)
+}
 
 func (t *memTracker) newWin(fk famKey, slot int, id string) *fieldWin {
 	t.seq++
